@@ -104,6 +104,7 @@ type enumPlan struct {
 	name, full, prefix string
 	values             []string
 	noDefault          bool
+	sparse             bool
 }
 
 type gen struct {
@@ -218,6 +219,10 @@ func (g *gen) planEnum(i int) *enumPlan {
 		e.values = append(e.values, e.prefix+e.values[1])
 		g.cls("enum-prefix-ambiguity")
 	}
+	if rapid.IntRange(0, 2).Draw(t, "sparseenum") == 0 {
+		e.sparse = true
+		g.cls("enum-sparse-numbers")
+	}
 	if g.mode == Arbitrary {
 		switch rapid.IntRange(0, 5).Draw(t, "enumodd") {
 		case 0:
@@ -232,8 +237,16 @@ func (g *gen) planEnum(i int) *enumPlan {
 
 func (g *gen) enumDesc(e *enumPlan) *descriptorpb.EnumDescriptorProto {
 	ed := &descriptorpb.EnumDescriptorProto{Name: proto.String(e.name)}
+	num := int32(0)
 	for i, v := range e.values {
-		ed.Value = append(ed.Value, &descriptorpb.EnumValueDescriptorProto{Name: proto.String(v), Number: proto.Int32(int32(i))})
+		if i > 0 {
+			num++
+			if e.sparse {
+				// option numbers need not be contiguous: 0, 2, 3, 7, ...
+				num += int32(rapid.IntRange(0, 3).Draw(g.t, "enumgap"))
+			}
+		}
+		ed.Value = append(ed.Value, &descriptorpb.EnumValueDescriptorProto{Name: proto.String(v), Number: proto.Int32(num)})
 	}
 	if e.noDefault {
 		ed.Options = &descriptorpb.EnumOptions{}
@@ -804,3 +817,47 @@ func (g *gen) consistentOptions(ft fieldType, card string) *descriptorpb.FieldOp
 	}
 	return opts
 }
+
+// CrossFile adds a second package whose only message references types of the
+// first file, including an enum referenced only from a field.
+func CrossFile(t *rapid.T, first *descriptorpb.FileDescriptorProto, pkg string) *descriptorpb.FileDescriptorProto {
+	fd := &descriptorpb.FileDescriptorProto{
+		Name:       proto.String(strings.ReplaceAll(pkg, ".", "/") + "/cross.proto"),
+		Package:    proto.String(pkg),
+		Syntax:     proto.String("proto3"),
+		Dependency: []string{first.GetName()},
+	}
+	msg := &descriptorpb.DescriptorProto{Name: proto.String("Cross")}
+	n := int32(1)
+	for _, m := range first.MessageType {
+		if rapid.Bool().Draw(t, "crossmsg") {
+			msg.Field = append(msg.Field, &descriptorpb.FieldDescriptorProto{
+				Name: proto.String(fmt.Sprintf("m_%d", n)), JsonName: proto.String(fmt.Sprintf("m%d", n)), Number: proto.Int32(n),
+				Type: descriptorpb.FieldDescriptorProto_TYPE_MESSAGE.Enum(), TypeName: proto.String("." + first.GetPackage() + "." + m.GetName()),
+				Label: descriptorpb.FieldDescriptorProto_LABEL_OPTIONAL.Enum(),
+			})
+			n++
+		}
+	}
+	for _, e := range first.EnumType {
+		label := descriptorpb.FieldDescriptorProto_LABEL_OPTIONAL
+		if rapid.Bool().Draw(t, "crossrep") {
+			label = descriptorpb.FieldDescriptorProto_LABEL_REPEATED
+		}
+		msg.Field = append(msg.Field, &descriptorpb.FieldDescriptorProto{
+			Name: proto.String(fmt.Sprintf("e_%d", n)), JsonName: proto.String(fmt.Sprintf("e%d", n)), Number: proto.Int32(n),
+			Type: descriptorpb.FieldDescriptorProto_TYPE_ENUM.Enum(), TypeName: proto.String("." + first.GetPackage() + "." + e.GetName()),
+			Label: label.Enum(),
+		})
+		n++
+	}
+	// a self-recursive member
+	msg.Field = append(msg.Field, &descriptorpb.FieldDescriptorProto{
+		Name: proto.String("again"), JsonName: proto.String("again"), Number: proto.Int32(n),
+		Type: descriptorpb.FieldDescriptorProto_TYPE_MESSAGE.Enum(), TypeName: proto.String("." + pkg + ".Cross"),
+		Label: descriptorpb.FieldDescriptorProto_LABEL_OPTIONAL.Enum(),
+	})
+	fd.MessageType = []*descriptorpb.DescriptorProto{msg}
+	return fd
+}
+
